@@ -1172,6 +1172,8 @@ class SQLModel:
                 )
                 for k in excess_sub_declared_keys:
                     del subsql.declared_term_dependencies[k]
+                # the merged step no longer computes what its original key describes
+                subsql.ops_key = f"extend({extend_node}, {subsql.terms.keys()})"
                 return subsql
         view_name = "extend_" + str(temp_id_source[0])
         temp_id_source[0] = temp_id_source[0] + 1
